@@ -9,16 +9,15 @@
      31 as 3, but the only difference is the universal tag of a character string
         that has no string-type parameter                  (known-finding class)
      41 as 4, for a type/params using EXPLICIT tagging   (known-finding class)
-     42 as 4: Go returned an error and the encoded value contains a member without
-        context tag                                        (known-finding class)
      5  C04: Go marshal panicked
+     90 (not a mismatch) a marshalled value outside the hypotheses [ok] of C05_roundtrip
    and by [run_dcases] (arbitrary bytes, bercorr -mode dec):
      6  dec (model) <> outcome of Go Unmarshal                     (correspondence)
      7  C16 monitor on the implementation: Go panicked or did not terminate
      71 C16 monitor: input whose identifier octets are not the ones the target type and
         parameters require (WrongType.expected) was accepted instead of reported as an error *)
 From Coq Require Import List ZArith Bool.
-From Verif Require Import Common.Outcome Common.Bytes Ber.Model Ber.X690 Ber.WrongType.
+From Verif Require Import Common.Outcome Common.Bytes Ber.Model Ber.X690 Ber.WrongType Ber.Roundtrip.
 Import ListNotations.
 Open Scope Z_scope.
 
@@ -83,32 +82,6 @@ Fixpoint has_untagged (t : ty) : bool :=
   | _ => false
   end.
 
-(* does the encoding of [v] contain a member that has no context tag? *)
-Fixpoint uses_untagged (t : ty) (v : value) {struct t} : bool :=
-  match t, v with
-  | TPtr t', VPtr v' => uses_untagged t' v'
-  | TWrap t', VStruct (v0 :: _) => uses_untagged t' v0
-  | TSlice t', VSlice vs => existsb (uses_untagged t') vs
-  | TChoice l, VStruct (VInt pr :: vs) =>
-    (fix go (l : list (fparams * ty)) (ws : list value) (k : Z) : bool :=
-       match l, ws with
-       | (fp, ft) :: l', w :: ws' =>
-         (if k =? pr then (match p_tag fp with Some _ => false | None => true end) || uses_untagged ft w
-          else false) || go l' ws' (k + 1)
-       | _, _ => false
-       end) l vs 1
-  | TSeq l, VStruct vs =>
-    (fix go (l : list (fparams * ty)) (ws : list value) : bool :=
-       match l, ws with
-       | (fp, ft) :: l', w :: ws' =>
-         (if p_optional fp && is_nil w then false
-          else (match p_tag fp with Some _ => false | None => true end) || uses_untagged ft w)
-         || go l' ws'
-       | _, _ => false
-       end) l vs
-  | _, _ => false
-  end.
-
 Record bcase := mkBcase {
   bc_id : Z; bc_ty : ty; bc_p : fparams; bc_v : value;
   bc_enc : outcome (list Z); bc_dec : outcome value }.
@@ -118,6 +91,8 @@ Definition check_bcase (c : bcase) : list (Z * Z) :=
   let i := bc_id c in
   let m_enc := enc t p v in
   (if outcome_eqb zlist_eqb m_enc (bc_enc c) then [] else [(i, 1)]) ++
+  (* 90: not a mismatch -- the case lies outside the hypotheses of C05_roundtrip (counted) *)
+  (match bc_enc c with Ok _ => if ok t p v then [] else [(i, 90)] | _ => [] end) ++
   match bc_enc c with
   | Ok bs =>
     (if outcome_eqb value_eqb (dec t p bs) (bc_dec c) then [] else [(i, 2)]) ++
@@ -127,7 +102,6 @@ Definition check_bcase (c : bcase) : list (Z * Z) :=
     (if outcome_eqb value_eqb (bc_dec c) (Ok (canon t false v)) then []
      else if (p_explicit p && (match p_tag p with Some _ => true | None => false end)) || has_explicit t
           then [(i, 41)]
-     else if uses_untagged t v && outcome_eqb value_eqb (bc_dec c) Err then [(i, 42)]
      else [(i, 4)])
   | Panic => [(i, 5)]
   | _ => []
